@@ -70,8 +70,8 @@ const (
 	formAssign
 	formReturn
 	formIfInit
-	formDelete // a dead closure binding or its `_ = name` keep-alive
-	formCond   // a call inside an if condition, hoisted under the guard of its evaluation
+	formDelete  // a dead closure binding or its `_ = name` keep-alive
+	formCond    // a call inside an if condition, hoisted under the guard of its evaluation
 	formRetPart // `return a, h(x)`: the call is one of several results, the others are pure
 )
 
